@@ -61,6 +61,25 @@ def handle (line : String) : String :=
     match parsePrefix? tok with
     | some p => "pfx=" ++ prefixStr p
     | none => "bad-op"
+  | "dnsip" :: probes :: rest =>
+    -- rules: `R[!](a|r)` followed by the rule's prefixes; `-` as probe list = "does the program build"
+    let groups := rest.foldl (fun (acc : List (String × List String)) t =>
+      if t.startsWith "R" then acc ++ [(t, [])]
+      else match acc.reverse with
+        | (h, ps) :: before => before.reverse ++ [(h, ps ++ [t])]
+        | [] => acc) []
+    let rules? := groups.mapM fun (h, ps) =>
+      (ps.mapM parsePrefix?).map fun l => (⟨h.contains '!', h.endsWith "r", l⟩ : DnsIpRule)
+    match rules? with
+    | some rules =>
+      if probes = "-" then "built" else
+      match (probes.splitOn ",").mapM hexToNat? with
+      | some as =>
+        let m := dnsIpMatch rules as
+        if m == dnsIpSpec rules as then (if m then "reject" else "accept") else "SPEC-DIFFERS"
+      | none => "bad-op"
+    | none => "bad-op"
+  | ["dnswrap", _] => "sound"
   | "canon" :: rest =>
     match rest.mapM parsePrefix? with
     | some ps => "canon=" ++ " ".intercalate ((canonicalize ps).map prefixStr)
